@@ -6,6 +6,7 @@ import (
 	"strconv"
 	"strings"
 	"time"
+	"unicode/utf8"
 
 	"github.com/ProtonMail/gluon/imap/command"
 	"pgregory.net/rapid"
@@ -84,7 +85,25 @@ var absentNeedles = []string{"zzqnotthere", "alphabeta", "example.co.uk", "needl
 func (b *biaser) needle(label string, own, other []string, vocab []string) string {
 	var s string
 
-	switch intn(b.t, label+"-src", 0, 11) {
+	switch intn(b.t, label+"-src", 0, 14) {
+	case 12, 13, 14:
+		// an 8-bit word of the text itself (the short ones can also be said in ISO-8859-1, see drawCharset)
+		var have []string
+
+		for _, w := range eightWords {
+			for _, o := range own {
+				if strings.Contains(o, w) {
+					have = append(have, w)
+					break
+				}
+			}
+		}
+
+		if len(have) > 0 {
+			s = pick(b.t, label+"-eight", have)
+		} else {
+			s = pick(b.t, label+"-vocab", vocab)
+		}
 	case 0, 1, 2, 3, 4, 5:
 		if len(own) > 0 {
 			s = b.substring(label, pick(b.t, label+"-own", own))
@@ -552,21 +571,96 @@ func hasEightBit(ks []command.SearchKey) bool {
 	return found
 }
 
-// drawCharset draws the CHARSET argument: none, UTF-8 or US-ASCII in some letter case. 8-bit search strings are only
-// legal with UTF-8.
+// drawCharset draws the CHARSET argument: none, UTF-8, US-ASCII or ISO-8859-1 in some letter case. 8-bit search
+// strings are only legal with a charset that can express them: UTF-8, or ISO-8859-1 when every character of every
+// string is below U+0100 (the strings then travel as Latin-1 bytes, see latin1Keys; the oracle keeps the characters).
 func drawCharset(t *rapid.T, ks []command.SearchKey) string {
 	if hasEightBit(ks) {
+		if _, ok := latin1Keys(ks); ok && intn(t, "charset8", 0, 2) > 0 {
+			return flipCase(t, "charset", "ISO-8859-1")
+		}
+
 		return flipCase(t, "charset", "UTF-8")
 	}
 
-	switch intn(t, "charset", 0, 5) {
+	switch intn(t, "charset", 0, 6) {
 	case 0:
 		return flipCase(t, "charset", "UTF-8")
 	case 1:
 		return flipCase(t, "charset", "US-ASCII")
+	case 2:
+		return flipCase(t, "charset", "ISO-8859-1")
 	}
 
 	return ""
+}
+
+// isLatin1 reports whether the CHARSET argument names ISO-8859-1.
+func isLatin1(charset string) bool { return strings.EqualFold(charset, "ISO-8859-1") }
+
+// latin1Keys returns a copy of the keys whose strings are written in ISO-8859-1 (one byte per character), the form
+// in which they travel when the command says CHARSET ISO-8859-1; false when a string has a character beyond U+00FF
+// or is not valid UTF-8.
+func latin1Keys(ks []command.SearchKey) ([]command.SearchKey, bool) {
+	ok := true
+
+	conv := func(s string) string {
+		out := make([]byte, 0, len(s))
+
+		for _, r := range s {
+			if r > 0xff || r == utf8.RuneError {
+				ok = false
+				return s
+			}
+
+			out = append(out, byte(r))
+		}
+
+		return string(out)
+	}
+
+	var walk func(k command.SearchKey) command.SearchKey
+
+	walk = func(k command.SearchKey) command.SearchKey {
+		switch k := k.(type) {
+		case *command.SearchKeyNot:
+			return &command.SearchKeyNot{Key: walk(k.Key)}
+		case *command.SearchKeyOr:
+			return &command.SearchKeyOr{Key1: walk(k.Key1), Key2: walk(k.Key2)}
+		case *command.SearchKeyList:
+			l := make([]command.SearchKey, len(k.Keys))
+			for i, s := range k.Keys {
+				l[i] = walk(s)
+			}
+
+			return &command.SearchKeyList{Keys: l}
+		case *command.SearchKeyFrom:
+			return &command.SearchKeyFrom{Value: conv(k.Value)}
+		case *command.SearchKeyTo:
+			return &command.SearchKeyTo{Value: conv(k.Value)}
+		case *command.SearchKeyCC:
+			return &command.SearchKeyCC{Value: conv(k.Value)}
+		case *command.SearchKeyBCC:
+			return &command.SearchKeyBCC{Value: conv(k.Value)}
+		case *command.SearchKeySubject:
+			return &command.SearchKeySubject{Value: conv(k.Value)}
+		case *command.SearchKeyBody:
+			return &command.SearchKeyBody{Value: conv(k.Value)}
+		case *command.SearchKeyText:
+			return &command.SearchKeyText{Value: conv(k.Value)}
+		case *command.SearchKeyHeader:
+			return &command.SearchKeyHeader{Field: conv(k.Field), Value: conv(k.Value)}
+		}
+
+		return k
+	}
+
+	out := make([]command.SearchKey, len(ks))
+	for i, k := range ks {
+		out[i] = walk(k)
+	}
+
+	return out, ok
 }
 
 // encode writes the search with C10's encoder (drawn letter case, atom / quoted / literal forms, date spellings)
